@@ -4,6 +4,7 @@ go 1.13
 
 require (
 	com.tuntun.rangers/node v0.0.0
+	github.com/gogo/protobuf v1.3.1
 	github.com/holiman/uint256 v1.1.1
 	golang.org/x/crypto v0.0.0-20210711020723-a769d52b0f97
 )
